@@ -221,6 +221,8 @@ func c15(c *Ctx) {
 	// just read: the shared value buffer is used under its mutex (analysis shared with C07.8 / C14.1)
 	c14ExportBuffer(c, "C15.8/export-carries-the-read-bytes")
 	exprTextRule(c, "C15.9/expression-text-round-trips")
+	c15PresenceGuardsOnly(c, "C15.10/conversion-guards-are-presence-tests")
+	c15NoLoopCarriedArgs(c, "C15.11/index-entry-carries-its-own-transaction-metadata", "embedded/store.(*indexer).indexSince", "embedded/store.serializeIndexableEntry", 2)
 	// ---- C15.4 (keys) nanosecond keys are built only from timestamps that fit ----------------------------------------
 	// the key codec holds UnixNano() in 8 bytes: outside 1677..2262 UnixNano is undefined and the key order is not the
 	// value order; the conversion is dominated by a lower and an upper range test of the same value
@@ -553,5 +555,130 @@ func c15LimitAgreement(c *Ctx, r string) {
 		}
 		c.check(len(ops) == 1, r, l.pkg+"."+l.name, "", "every check against the limit uses the same comparison: "+strings.Join(where, " "),
 			fmt.Sprintf("checks against %s disagree (%s): a value accepted when written is rejected when read, or vice versa", l.name, strings.Join(where, " ")))
+	}
+}
+
+// c15PresenceGuardsOnly: a converter between the store's types and their protobuf messages copies an attribute when it is
+// PRESENT (nil test, Has*/Is* of the source), whatever its value is: a guard on the value makes one value travel as "absent"
+// and the decoded object differ from the encoded one (metadata is covered by the entry digest, so do Eh and Alh).
+// Frozen exceptions: proto3 scalars without presence where 0 is the "absent" encoding, confirmed by reading.
+var c15ValueGuards = map[string]string{
+	"TxMetadataFromProto|TruncatedTxID": "proto3 uint64 has no presence; 0 means absent (transaction ids start at 1)",
+	"TxFromProto|NEntries":              "clamp of the announced entry count to the entries carried (C16.9), not a conversion guard",
+}
+
+func c15PresenceGuardsOnly(c *Ctx, r string) {
+	n := 0
+	for _, f := range c.allFns {
+		if !fnInPkgs(f, []string{"pkg/api/schema"}) || len(f.Blocks) == 0 || f.Signature.Recv() != nil {
+			continue
+		}
+		name := f.Name()
+		if !(strings.HasSuffix(name, "FromProto") || strings.HasSuffix(name, "ToProto")) || !strings.HasSuffix(c.Fset.Position(f.Pos()).Filename, "database_protoconv.go") {
+			continue
+		}
+		n++
+		var bad []string
+		for _, b := range f.Blocks {
+			if len(b.Instrs) == 0 {
+				continue
+			}
+			ifi, ok := b.Instrs[len(b.Instrs)-1].(*ssa.If)
+			if !ok {
+				continue
+			}
+			for _, leaf := range boolLeaves(ifi.Cond) {
+				atom, _ := normCond(leaf)
+				switch {
+				case strings.Contains(atom, "nil"), strings.Contains(atom, " < len("), strings.HasPrefix(atom, "extract:"), strings.Contains(atom, ").Has"), strings.Contains(atom, ").Is"):
+					continue
+				}
+				excused := false
+				for k := range c15ValueGuards {
+					kk := strings.SplitN(k, "|", 2)
+					if kk[0] == name && strings.Contains(atom, kk[1]) {
+						excused = true
+					}
+				}
+				if !excused {
+					bad = append(bad, atom+" @"+c.pos(ifi.Pos()))
+				}
+			}
+		}
+		c.check(len(bad) == 0, r, "pkg/api/schema."+name, c.pos(f.Pos()), "attributes are converted whenever they are present", "the conversion depends on the VALUE of an attribute ("+strings.Join(bad, "; ")+"): a value for which the guard fails is not carried over, the converted object differs from the original and so do the digests computed from it")
+	}
+	if n < 20 {
+		c.undecided(r, "floor", fmt.Sprintf("%d converters found in pkg/api/schema/database_protoconv.go, 20+ expected", n))
+	}
+}
+
+// loopCarriedPhi: a phi among the (phi-)operands of v that depends on itself, i.e. a value surviving from one loop
+// iteration to the next.
+func loopCarriedPhi(v ssa.Value) *ssa.Phi {
+	var found *ssa.Phi
+	seen := map[ssa.Value]bool{}
+	var walk func(x ssa.Value)
+	walk = func(x ssa.Value) {
+		if x == nil || seen[x] || found != nil {
+			return
+		}
+		seen[x] = true
+		p, ok := x.(*ssa.Phi)
+		if !ok {
+			return
+		}
+		// does p reach itself through phi edges?
+		s2 := map[ssa.Value]bool{}
+		var self func(y ssa.Value) bool
+		self = func(y ssa.Value) bool {
+			q, ok := y.(*ssa.Phi)
+			if !ok || s2[q] {
+				return false
+			}
+			s2[q] = true
+			for _, e := range q.Edges {
+				if e == p || self(e) {
+					return true
+				}
+			}
+			return false
+		}
+		if self(p) {
+			found = p
+			return
+		}
+		for _, e := range p.Edges {
+			walk(e)
+		}
+	}
+	walk(v)
+	return found
+}
+
+// c15NoLoopCarriedArgs: what is serialized next to an entry (its transaction's metadata, its own metadata) is computed
+// for THAT transaction: a value that survives from the previous iteration of the per-transaction loop puts one
+// transaction's metadata into another one's index entries.
+func c15NoLoopCarriedArgs(c *Ctx, r, fn, callee string, floor int) {
+	f := c.mustFn(r, fn)
+	if f == nil {
+		return
+	}
+	ss := sites(f, callTo(callee))
+	if len(ss) < floor {
+		c.undecided(r, fnName(f)+":floor", fmt.Sprintf("%d calls of %s, %d expected", len(ss), callee, floor))
+	}
+	for i, in := range ss {
+		for ai, a := range callOf(in).Args {
+			if _, isSlice := a.Type().Underlying().(*types.Slice); !isSlice || ai == 0 {
+				continue
+			}
+			p := loopCarriedPhi(a)
+			construct := fmt.Sprintf("%s:%s#%d:arg%d", fnName(f), lastSeg(callee), i, ai)
+			if p != nil {
+				c.fail(r, construct, c.pos(in.Pos()), "argument "+desc(a)+" may still hold the value computed for a PREVIOUS transaction of the bulk (it is carried around the loop, "+p.Comment+"): the entry is indexed with metadata that is not its transaction's")
+			} else {
+				c.ok(r, construct, c.pos(in.Pos()), "computed within the iteration that serializes it")
+			}
+		}
 	}
 }
